@@ -33,6 +33,8 @@ abbrev Uid := Nat
 structure Facts where
   unbindChecksUID : Bool        -- unbind ignores an event whose pod UID differs from a stored non-empty UID
   bindChecksUID : Bool          -- allocateIP refuses to reuse an IP stored under another non-empty UID
+  bindChecksListerUID : Bool    -- Bind refuses when the lister's pod has another (non-empty) UID than args.PodUID
+  bindUidGuardCoversWholeKey : Bool  -- the "waiting for delete event" check looks at ALL records of the key
   releaseRechecks : Bool        -- Release re-reads ByIP under lockPod and compares keys
   resyncRechecks : Bool         -- the resync closure re-reads ByIP under lockPod and compares keys
   apiDoubleCheck : Bool         -- podRunning asks the API server after the lister said "not running"
@@ -43,13 +45,15 @@ deriving DecidableEq, Repr
 def facts : Facts :=
   { unbindChecksUID := Generated.Plugin.unbindChecksUID
     bindChecksUID := Generated.Plugin.bindChecksUID
+    bindChecksListerUID := Generated.Plugin.bindChecksListerUID
+    bindUidGuardCoversWholeKey := Generated.Plugin.bindUidGuardCoversWholeKey
     releaseRechecks := Generated.Plugin.releaseRechecksUnderLock
     resyncRechecks := Generated.Plugin.resyncRechecksUnderLock
     apiDoubleCheck := Generated.Plugin.podRunningAsksApiServerSecond
     runningChecksUID := Generated.Plugin.runningAndUidMatchChecksUID }
 
 /-- the shape the proofs are about -/
-def Facts.good : Facts := ⟨true, true, true, true, true, true⟩
+def Facts.good : Facts := ⟨true, true, true, true, true, true, true, true⟩
 
 /-! ## Subnets and pools -/
 
@@ -827,17 +831,23 @@ def bindCommit (s : State) (pod : Pod) (ns name : String) (uid : Nat) (node : St
              { tp with node := node, handed := ips.map (toHInfo s) } },
        { ips := ips.map (toHInfo s) })
 
+/-- the addresses whose stored UID the "waiting for delete event" check of `allocateIP` looks at: every record of
+    the key (`ByKeyAndIPRanges(key, nil)`), or - before the fix - only the ones found for the requested ranges -/
+def bindGuardIPs (F : Facts) (s : State) (pod : Pod) (infos : List (Option IP)) : List IP :=
+  if F.bindUidGuardCoversWholeKey then ipsOfKey s (keyOf pod) else infos.filterMap id
+
 /-- `Bind(args)`; `uid` is `args.PodUID` (the scheduler's view of the pod it binds) -/
 def bind (F : Facts) (s : State) (ns name : String) (uid : Nat) (node : String) (ch : Choice) : State × Out :=
   match s.vPods.get (ns, name) with
   | none => (s, Out.err "not-found")
   | some pod =>
     if !pod.wants then (s, Out.err "bad-input")
+    else if F.bindChecksListerUID && uid != 0 && pod.uid != 0 && pod.uid != uid then (s, Out.err "lister-stale")
     else
       match bindInfos s pod ch with
       | none => (s, Out.bad)
       | some infos =>
-        if F.bindChecksUID && (infos.filterMap id).any (fun ip =>
+        if F.bindChecksUID && (bindGuardIPs F s pod infos).any (fun ip =>
             match s.alloc.get ip with
             | some r => r.uid != 0 && r.uid != pod.uid
             | none => false) then (s, Out.err "waiting-for-delete")
